@@ -710,13 +710,37 @@ func signClass(r IR) string {
 // ---- work items
 
 type item struct {
-	kind string // "api" | "andmax" | "ormax" | "bfr" | "split2" | "split3" | "abnn" | "obnn" | "aonn" | "oonn" | "ipu"
+	kind string // "api" | "andmax" | "ormax" | "bfr" | "split2" | "split3" | "abnn" | "obnn" | "aonn" | "oonn" | "ipu" | helperKinds
 	op   string
 	x, y IR
 	n    *big.Int
+	a, b *big.Int  // scalar arguments of the big-int helpers (b may be nil)
+	n0   int       // bitMask arguments
+	n1   int       //
+	bip  [2]bigger // biggerIntPair argument
+	by   bigger    // biggerInt argument
 	exhW int64
 	seed uint64
 }
+
+// bigger mirrors lib/interval's biggerInt.
+type bigger = interval.VerifBiggerInt
+
+func showBI(v bigger) string {
+	switch {
+	case v.Extra < 0:
+		return "-inf"
+	case v.Extra > 0:
+		return "+inf"
+	case v.I == nil:
+		return "nilptr"
+	}
+	return v.I.String()
+}
+
+func showBIP(p [2]bigger) string { return "p " + showBI(p[0]) + " " + showBI(p[1]) }
+
+func cpBI(v bigger) bigger { return bigger{Extra: v.Extra, I: cp(v.I)} }
 
 func (c *item) line() string {
 	switch c.kind {
@@ -726,8 +750,26 @@ func (c *item) line() string {
 		return c.kind + " " + showR(c.x) + " " + showR(c.y)
 	case "bfr":
 		return "bfr " + c.n.String()
+	case "bquo", "bmul", "blsh", "brsh":
+		return c.kind + " " + c.a.String() + " " + c.b.String()
+	case "bset", "bnot":
+		return c.kind + " " + showB(c.a)
+	case "bmask":
+		return fmt.Sprintf("bmask %d %d", c.n0, c.n1)
+	case "preds":
+		return "preds " + showR(c.x) + " " + c.a.String()
+	case "rel":
+		return "rel " + showR(c.x) + " " + showR(c.y)
+	case "mkempty", "newbip":
+		return c.kind
+	case "lowermin", "raisemax":
+		return c.kind + " " + showBI(c.bip[0]) + " " + showBI(c.bip[1]) + " " + showBI(c.by)
+	case "toir":
+		return "toir " + showBI(c.bip[0]) + " " + showBI(c.bip[1])
+	case "mullsh":
+		return "mullsh " + c.op + " " + showR(c.x) + " " + showR(c.y)
 	}
-	return c.kind + " " + showR(c.x)
+	return c.kind + " " + showR(c.x) // split2 split3 jz str fromir
 }
 
 type result struct {
@@ -799,12 +841,210 @@ func evalInternal(c *item) *result {
 		res.out = guardRange(func() IR { return interval.VerifOrOneNegOneNonNeg(x, y) })
 	case "ipu":
 		res.out = guardRange(func() IR { interval.VerifInPlaceUnite(&x, y); return x })
+	default:
+		evalHelper(c, res, x, y)
 	}
 	if res.out == "panic" {
 		res.count("out:panic:" + c.kind)
 	}
 	res.count("op:" + c.kind)
 	return res
+}
+
+// freshScalar checks that a helper's *big.Int result is a new allocation: not an argument, not a
+// package-level value, and not sharing word storage with an argument.
+func freshScalar(res *result, name string, z *big.Int, args ...*big.Int) {
+	if z == nil {
+		return
+	}
+	before := make([]string, len(args))
+	for i, a := range args {
+		before[i] = showB(a)
+		if a != nil && a == z {
+			res.fail("shared-storage:helper:"+name, "helper returned one of its argument pointers")
+			return
+		}
+	}
+	if interval.VerifShared(z) {
+		res.fail("shared-storage:helper:"+name, "helper returned a package-level *big.Int")
+		return
+	}
+	scribble(z, 424242)
+	for i, a := range args {
+		if showB(a) != before[i] {
+			res.fail("shared-storage:helper:"+name, "mutating the helper's result changed an argument")
+		}
+	}
+}
+
+// evalHelper: one line per remaining unexported helper (and the public predicates) of interval.go;
+// the value is compared with the model line by line, and with math/big / first principles here.
+func evalHelper(c *item, res *result, x, y IR) {
+	a, b := cp(c.a), cp(c.b)
+	switch c.kind {
+	case "bquo", "bmul", "blsh", "brsh":
+		var z *big.Int
+		res.out = hlib.Guard(func() string {
+			switch c.kind {
+			case "bquo":
+				z = interval.VerifBigIntQuo(a, b)
+			case "bmul":
+				z = interval.VerifBigIntMul(a, b)
+			case "blsh":
+				z = interval.VerifBigIntLsh(a, b)
+			default:
+				z = interval.VerifBigIntRsh(a, b)
+			}
+			return "v " + z.String()
+		})
+		if showB(a) != showB(c.a) || showB(b) != showB(c.b) {
+			res.fail("operand-mutated:helper:"+c.kind, "helper changed an argument")
+		}
+		if res.out == "panic" {
+			if !(c.kind == "bquo" && c.b.Sign() == 0) {
+				res.fail("panic:helper:"+c.kind, "helper panicked inside its domain")
+			}
+			return
+		}
+		// first-principles value, inside the domain the package uses the helper on
+		var want *big.Int
+		switch c.kind {
+		case "bquo":
+			want = new(big.Int).Quo(c.a, c.b)
+		case "bmul":
+			want = new(big.Int).Mul(c.a, c.b)
+		case "blsh":
+			if c.b.Sign() >= 0 {
+				want = new(big.Int).Mul(c.a, new(big.Int).Exp(bi(2), c.b, nil))
+			}
+		case "brsh":
+			if c.b.Sign() >= 0 {
+				if c.b.IsInt64() && c.b.Int64() <= 1<<16 {
+					want = new(big.Int).Div(c.a, new(big.Int).Exp(bi(2), c.b, nil)) // floor
+				} else if c.a.Sign() < 0 {
+					want = bi(-1)
+				} else {
+					want = bi(0)
+				}
+			}
+		}
+		if want != nil {
+			res.count("helper-value-checked:" + c.kind)
+			if want.Cmp(z) != 0 {
+				res.fail("helper-value:"+c.kind, fmt.Sprintf("%s(%v, %v) = %v, expected %v", c.kind, c.a, c.b, z, want))
+			}
+		}
+		freshScalar(res, c.kind, z, a, b)
+	case "bset", "bnot":
+		var z *big.Int
+		res.out = hlib.Guard(func() string {
+			if c.kind == "bset" {
+				z = interval.VerifBigIntNewSet(a)
+			} else {
+				z = interval.VerifBigIntNewNot(a)
+			}
+			return "v " + showB(z)
+		})
+		if res.out == "panic" {
+			res.fail("panic:helper:"+c.kind, "helper panicked")
+			return
+		}
+		var want *big.Int
+		if c.a != nil {
+			want = new(big.Int).Set(c.a)
+			if c.kind == "bnot" {
+				want.Neg(want).Sub(want, bi(1))
+			}
+		}
+		if showB(want) != showB(z) {
+			res.fail("helper-value:"+c.kind, "expected "+showB(want)+", got "+showB(z))
+		}
+		freshScalar(res, c.kind, z, a)
+	case "bmask":
+		res.out = hlib.Guard(func() string {
+			z := interval.VerifBitMask(c.n0, c.n1)
+			n := c.n0
+			if c.n1 > n {
+				n = c.n1
+			}
+			if z.Cmp(lowMask(n)) != 0 {
+				res.fail("helper-value:bmask", fmt.Sprintf("bitMask(%d,%d) = %v", c.n0, c.n1, z))
+			}
+			if interval.VerifShared(z) {
+				return "v " + z.String() + " sh"
+			}
+			return "v " + z.String() + " fr"
+		})
+	case "jz":
+		res.out = hlib.Guard(func() string { return fmt.Sprintf("b %v", interval.VerifJustZero(x)) })
+	case "str":
+		res.out = hlib.Guard(func() string { return "s " + x.String() })
+	case "preds":
+		res.out = hlib.Guard(func() string {
+			e, cn, cnn, cpos, cz, ci := x.Empty(), x.ContainsNegative(), x.ContainsNonNegative(), x.ContainsPositive(), x.ContainsZero(), x.ContainsInt(a)
+			// first principles (membership)
+			nonE := !empty(c.x)
+			exists := func(lo, hi bound) bool { // is there a member v with lo <= v <= hi (nil = unbounded)?
+				l, h := c.x[0], c.x[1]
+				if lo != nil && (l == nil || l.Cmp(lo) < 0) {
+					l = lo
+				}
+				if hi != nil && (h == nil || h.Cmp(hi) > 0) {
+					h = hi
+				}
+				return nonE && (l == nil || h == nil || l.Cmp(h) <= 0)
+			}
+			// ContainsZero / ContainsInt are documented without reference to emptiness; they are
+			// compared with the model only
+			if e != !nonE || cn != exists(nil, bi(-1)) || cnn != exists(bi(0), nil) || cpos != exists(bi(1), nil) {
+				res.fail("predicate:preds", fmt.Sprintf("Empty/ContainsNegative/ContainsNonNegative/ContainsPositive = %v %v %v %v", e, cn, cnn, cpos))
+			}
+			if nonE && (cz != contains(c.x, bi(0)) || ci != contains(c.x, c.a)) {
+				res.fail("predicate:preds", fmt.Sprintf("ContainsZero/ContainsInt = %v %v", cz, ci))
+			}
+			return fmt.Sprintf("b %v %v %v %v %v %v", e, cn, cnn, cpos, cz, ci)
+		})
+	case "rel":
+		res.out = hlib.Guard(func() string {
+			cir, eq := x.ContainsIntRange(y), x.Eq(y)
+			xe, ye := empty(c.x), empty(c.y)
+			wantC := ye || (!xe && (c.x[0] == nil || (c.y[0] != nil && c.x[0].Cmp(c.y[0]) <= 0)) &&
+				(c.x[1] == nil || (c.y[1] != nil && c.x[1].Cmp(c.y[1]) >= 0)))
+			wantE := (xe && ye) || (!xe && !ye && showR(c.x) == showR(c.y))
+			if cir != wantC || eq != wantE {
+				res.fail("predicate:rel", fmt.Sprintf("ContainsIntRange/Eq = %v %v, expected %v %v", cir, eq, wantC, wantE))
+			}
+			return fmt.Sprintf("b %v %v", cir, eq)
+		})
+	case "mkempty":
+		res.out = guardRange(func() IR { return interval.VerifMakeEmptyRange() })
+	case "newbip":
+		res.out = hlib.Guard(func() string { return showBIP(interval.VerifNewBiggerIntPair()) })
+	case "lowermin":
+		res.out = hlib.Guard(func() string {
+			return showBIP(interval.VerifLowerMin([2]bigger{cpBI(c.bip[0]), cpBI(c.bip[1])}, cpBI(c.by)))
+		})
+	case "raisemax":
+		res.out = hlib.Guard(func() string {
+			return showBIP(interval.VerifRaiseMax([2]bigger{cpBI(c.bip[0]), cpBI(c.bip[1])}, cpBI(c.by)))
+		})
+	case "toir":
+		res.out = guardRange(func() IR { return interval.VerifToIntRange([2]bigger{cpBI(c.bip[0]), cpBI(c.bip[1])}) })
+	case "fromir":
+		res.out = hlib.Guard(func() string {
+			p := interval.VerifFromIntRange(x)
+			for _, q := range p {
+				if q.I != nil && (q.I == x[0] || q.I == x[1]) {
+					res.fail("shared-storage:helper:fromir", "fromIntRange kept an operand pointer")
+				}
+			}
+			return showBIP(p)
+		})
+	case "mullsh":
+		res.out = guardRange(func() IR { return interval.VerifMulLsh(x, y, c.op == "1") })
+	default:
+		panic("bad kind " + c.kind)
+	}
 }
 
 // scribble overwrites a result big.Int in place, including the spare capacity
@@ -1201,6 +1441,66 @@ func runCorpus(q *runner) {
 	}
 }
 
+// genTables renders lib/interval's package-level values (as the working tree's code built them)
+// for lean/WuffsVerif/Gen/C06_Tables.lean.
+func genTables() string {
+	lit := func(v *big.Int) string { return "(" + v.String() + " : Int)" }
+	var sb strings.Builder
+	sb.WriteString("/- REGENERATED by `wvh_c06 -mode gen` from lib/interval (package-level values of the working\n")
+	sb.WriteString("tree, read through the verif-tagged exports). Do not edit. -/\n")
+	sb.WriteString("namespace WuffsVerif.Gen.C06\n\n")
+	sb.WriteString("/-- `smallBitMasks`, entry by entry -/\n")
+	sb.WriteString("def smallBitMasks : List Int := [")
+	for i, m := range interval.VerifSmallBitMasks() {
+		if i > 0 {
+			sb.WriteString(", ")
+		}
+		sb.WriteString(lit(m))
+	}
+	sb.WriteString("]\n\n")
+	one, minusOne, shared := interval.VerifSharedValues()
+	sb.WriteString("/-- `one`, `minusOne` -/\n")
+	sb.WriteString("def one : Int := " + lit(one) + "\n")
+	sb.WriteString("def minusOne : Int := " + lit(minusOne) + "\n\n")
+	sb.WriteString("/-- `sharedEmptyRange`, `makeEmptyRange()` -/\n")
+	pair := func(x IR) string {
+		if x[0] == nil || x[1] == nil {
+			// not expressible as a pair of integers: an obviously non-empty pair makes the obligation fail
+			return "((0 : Int), (0 : Int))"
+		}
+		return "(" + lit(x[0]) + ", " + lit(x[1]) + ")"
+	}
+	sb.WriteString("def sharedEmptyRange : Int × Int := " + pair(shared) + "\n")
+	sb.WriteString("def makeEmptyRange : Int × Int := " + pair(interval.VerifMakeEmptyRange()) + "\n\n")
+	sb.WriteString("end WuffsVerif.Gen.C06\n")
+	return sb.String()
+}
+
+// boundaryKs: widths at which a machine-word shortcut, a lookup table or a size switch could sit.
+var boundaryKs = []int{7, 8, 15, 16, 31, 32, 62, 63, 64, 65, 127, 128}
+
+// boundaryVals returns ±2^k + d for k in boundaryKs, d in -2..2, and the small integers -3..3.
+func boundaryVals() []*big.Int {
+	seen := map[string]bool{}
+	var out []*big.Int
+	add := func(v *big.Int) {
+		if s := v.String(); !seen[s] {
+			seen[s] = true
+			out = append(out, v)
+		}
+	}
+	for i := int64(-3); i <= 3; i++ {
+		add(bi(i))
+	}
+	for _, k := range boundaryKs {
+		for d := int64(-2); d <= 2; d++ {
+			add(pow2(k, d))
+			add(new(big.Int).Neg(pow2(k, d)))
+		}
+	}
+	return out
+}
+
 func pow2(k int, d int64) *big.Int {
 	v := new(big.Int).Lsh(bi(1), uint(k))
 	return v.Add(v, bi(d))
@@ -1208,6 +1508,10 @@ func pow2(k int, d int64) *big.Int {
 
 func main() {
 	r := hlib.Start("C06")
+	if r.IsGen() {
+		r.WriteGen("C06_Tables.lean", genTables())
+		return
+	}
 	// hlib's splitmix state is (seed+n)*G+c, so r.Rand for seed s+1 is r.Rand for seed s shifted
 	// by one draw; fork once so that different seeds give unrelated streams.
 	rng := r.Rand.Fork()
@@ -1473,9 +1777,233 @@ func main() {
 	q.flush()
 	r.Count("phase:shifts")
 
+	// 6. machine-word boundaries: bounds at and around ±2^k for the widths at which a native-word
+	//    shortcut, a table lookup or a sign/size switch could sit, combined with small divisors,
+	//    factors and shift counts (-1, 0, 1, ...), through every public operator and — directly —
+	//    through every helper an operator reaches (bigIntQuo/Mul/Lsh/Rsh, bitMask, bitFillRight, ...)
+	bvals := boundaryVals()
+	nBoundaryPairs := 6000
+	if r.Thorough {
+		nBoundaryPairs = 200000
+	}
+	smallY := []IR{
+		{bi(-1), bi(-1)}, {bi(1), bi(1)}, {bi(0), bi(0)}, {bi(-3), bi(-1)}, {bi(1), bi(3)}, {bi(-1), bi(1)},
+		{bi(0), bi(1)}, {bi(-1), bi(0)}, {bi(2), bi(2)}, {bi(-2), bi(-2)}, {bi(-3), bi(3)}, {bi(1), nil}, {nil, bi(-1)},
+	}
+	var shiftY []IR
+	for _, k := range append([]int{0, 1, 2}, boundaryKs...) {
+		kk := int64(k)
+		shiftY = append(shiftY, IR{bi(kk), bi(kk)})
+		if k > 0 {
+			shiftY = append(shiftY, IR{bi(kk - 1), bi(kk + 1)})
+		}
+	}
+	shiftY = append(shiftY, IR{bi(0), bi(1)}, IR{bi(-1), bi(1)}, IR{bi(0), nil}, IR{bi(1), bi(0)})
+	for bIdx, b := range bvals {
+		shapes := []IR{
+			{cp(b), cp(b)},
+			{cp(b), new(big.Int).Add(b, bi(1))},
+			{cp(b), new(big.Int).Add(b, bi(10))},
+			{new(big.Int).Sub(b, bi(1)), cp(b)},
+			{new(big.Int).Sub(b, bi(10)), cp(b)},
+			{cp(b), nil},
+			{nil, cp(b)},
+		}
+		for _, x := range shapes {
+			for _, op := range ops {
+				ys := smallY
+				if op == "lsh" || op == "rsh" {
+					ys = shiftY
+				}
+				for _, y := range ys {
+					q.api(op, cpR(x), cpR(y), 12)
+					r.Count("boundary:api")
+					// the other way round, where the operator is not symmetric and the result stays small
+					switch op {
+					case "sub", "quo", "and", "or", "mul":
+						q.api(op, cpR(y), cpR(x), 12)
+						r.Count("boundary:api")
+					}
+				}
+			}
+			// boundary shift counts up to 2^32-1 are cheap for >> (not for <<)
+			if x[0] != nil && x[1] != nil && x[0].Sign() >= 0 && x[1].Cmp(bi(0xFFFFFFFF)) <= 0 {
+				q.api("rsh", IR{bi(-9), bi(int64(bIdx))}, cpR(x), 12)
+				q.api("rsh", IR{new(big.Int).Neg(pow2(64, 0)), pow2(64, 1)}, cpR(x), 12)
+				r.Count("boundary:api-rsh-bigcount")
+			}
+		}
+	}
+	// boundary against boundary
+	for i := 0; i < nBoundaryPairs; i++ {
+		op := ops[rng.Intn(len(ops))]
+		mk := func() IR {
+			b := bvals[rng.Intn(len(bvals))]
+			switch rng.Intn(6) {
+			case 0:
+				return IR{cp(b), cp(b)}
+			case 1:
+				return IR{cp(b), new(big.Int).Add(b, bi(int64(rng.Intn(12))))}
+			case 2:
+				return IR{new(big.Int).Sub(b, bi(int64(rng.Intn(12)))), cp(b)}
+			case 3:
+				c := bvals[rng.Intn(len(bvals))]
+				if c.Cmp(b) < 0 {
+					b, c = c, b
+				}
+				return IR{cp(b), cp(c)}
+			case 4:
+				return IR{cp(b), nil}
+			default:
+				return IR{nil, cp(b)}
+			}
+		}
+		x, y := mk(), mk()
+		if op == "lsh" || op == "rsh" {
+			y = shiftY[rng.Intn(len(shiftY))]
+		}
+		q.api(op, x, cpR(y), 12)
+		r.Count("boundary:api-pair")
+	}
+	q.flush()
+	r.Count("phase:boundary-api")
+
+	// 7. every helper directly, with boundary operands
+	smallInts := []int64{-3, -2, -1, 0, 1, 2, 3}
+	shiftCounts := []int64{-2, -1, 0, 1, 2}
+	for _, k := range boundaryKs {
+		shiftCounts = append(shiftCounts, int64(k)-1, int64(k), int64(k)+1)
+	}
+	scalar := func(kind string, a, b *big.Int) { q.add(&item{kind: kind, a: a, b: b}) }
+	for _, b := range bvals {
+		for _, sv := range smallInts {
+			sm := bi(sv)
+			scalar("bquo", cp(b), sm)
+			scalar("bquo", sm, cp(b))
+			scalar("bmul", cp(b), sm)
+			scalar("bmul", sm, cp(b))
+		}
+		for _, sc := range shiftCounts {
+			scalar("blsh", cp(b), bi(sc))
+			scalar("brsh", cp(b), bi(sc))
+		}
+		if b.Sign() >= 0 && b.Cmp(bi(0xFFFFFFFF)) <= 0 {
+			for _, sv := range smallInts { // big counts on small values: the uint32 threshold of bigIntRsh
+				scalar("brsh", bi(sv), cp(b))
+			}
+			scalar("brsh", cp(bvals[rng.Intn(len(bvals))]), cp(b))
+		}
+		q.add(&item{kind: "bset", a: cp(b)})
+		q.add(&item{kind: "bnot", a: cp(b)})
+		q.add(&item{kind: "bfr", n: new(big.Int).Abs(b)})
+		if rng.Chance(1, 8) {
+			q.add(&item{kind: "bfr", n: cp(b)}) // negative ones panic
+		}
+		r.Count("boundary:helper-value")
+	}
+	q.add(&item{kind: "bset"})
+	q.add(&item{kind: "bnot"})
+	q.add(&item{kind: "mkempty"})
+	q.add(&item{kind: "newbip"})
+	nPairsH := 3000
+	if r.Thorough {
+		nPairsH = 100000
+	}
+	for i := 0; i < nPairsH; i++ {
+		a, b := bvals[rng.Intn(len(bvals))], bvals[rng.Intn(len(bvals))]
+		if rng.Chance(1, 4) {
+			a = randMag(rng)
+		}
+		if rng.Chance(1, 4) {
+			b = randMag(rng)
+		}
+		scalar("bquo", cp(a), cp(b))
+		scalar("bmul", cp(a), cp(b))
+	}
+	// bitMask: every n up to 140 (the table edge is in there, wherever it is), and boundary widths
+	for n := 0; n <= 140; n++ {
+		q.add(&item{kind: "bmask", n0: n, n1: rng.Intn(n + 1)})
+		q.add(&item{kind: "bmask", n0: rng.Intn(n + 1), n1: n})
+		q.add(&item{kind: "bmask", n0: n, n1: n})
+	}
+	for _, n := range []int{255, 256, 257, 1023, 1024, 4095, 4096, 65535, 65536} {
+		q.add(&item{kind: "bmask", n0: n, n1: 0})
+	}
+	// biggerIntPair: lowerMin / raiseMax / toIntRange / fromIntRange over {-inf, +inf, values}
+	var bis []bigger
+	bis = append(bis, bigger{Extra: -1}, bigger{Extra: +1})
+	for _, v := range []int64{-2, -1, 0, 1, 2} {
+		bis = append(bis, bigger{I: bi(v)})
+	}
+	for i := 0; i < 6; i++ {
+		bis = append(bis, bigger{I: cp(bvals[rng.Intn(len(bvals))])})
+	}
+	for _, lo := range bis {
+		for _, hi := range bis {
+			q.add(&item{kind: "toir", bip: [2]bigger{lo, hi}})
+			for _, yv := range bis {
+				q.add(&item{kind: "lowermin", bip: [2]bigger{lo, hi}, by: yv})
+				q.add(&item{kind: "raisemax", bip: [2]bigger{lo, hi}, by: yv})
+			}
+		}
+	}
+	// ranges for the predicates, String, justZero, fromIntRange, mulLsh called directly
+	var rvals []bound
+	rvals = append(rvals, nil)
+	for _, v := range []int64{-2, -1, 0, 1, 2} {
+		rvals = append(rvals, bi(v))
+	}
+	for _, k := range []int{63, 64} {
+		rvals = append(rvals, pow2(k, 0), new(big.Int).Neg(pow2(k, 0)))
+	}
+	var rr []IR
+	for _, a := range rvals {
+		for _, b := range rvals {
+			rr = append(rr, IR{cp(a), cp(b)})
+		}
+	}
+	for _, x := range rr {
+		q.add(&item{kind: "jz", x: x})
+		q.add(&item{kind: "str", x: x})
+		q.add(&item{kind: "fromir", x: x})
+		for _, v := range []int64{-1, 0, 1} {
+			q.add(&item{kind: "preds", x: x, a: bi(v)})
+		}
+		q.add(&item{kind: "preds", x: x, a: cp(bvals[rng.Intn(len(bvals))])})
+		for _, y := range rr {
+			q.add(&item{kind: "rel", x: x, y: y})
+		}
+	}
+	nMulLsh := 4000
+	if r.Thorough {
+		nMulLsh = 100000
+	}
+	for i := 0; i < nMulLsh; i++ {
+		sm := rng.Chance(1, 2)
+		x, y := randRange(rng, sm), randRange(rng, sm)
+		sh := "0"
+		if rng.Bool() {
+			// shift = true, including the "unreachable" negative-count blocks; counts kept small
+			sh = "1"
+			y = shiftRange(rng)
+			if rng.Chance(1, 3) {
+				y = IR{bi(int64(rng.Intn(9) - 6)), bi(int64(rng.Intn(9) - 2))}
+			}
+			if y[1] == nil && rng.Bool() {
+				y[1] = bi(40)
+			}
+		}
+		q.add(&item{kind: "mullsh", op: sh, x: x, y: y})
+	}
+	q.flush()
+	r.Count("phase:helpers")
+
 	r.Finish("corpus lines first; systematic: all 10 ops x bounds in [-B,B]∪{inf} (B=3 quick, 9 thorough) incl. empty intervals; " +
 		"random: magnitudes around 2^k±2 up to k=135, sign-straddling, half-infinite; bit patterns: prefix-sharing / adjacent / touching / " +
 		"complementary non-negative ranges (1..131 bits) through andMax/orMax and through And/Or plain, complemented and straddling; " +
-		"half-infinite and/or; shifts: every count 0..200, 2^32 threshold with x=[0,0]/empty only. " +
+		"half-infinite and/or; shifts: every count 0..200, 2^32 threshold with x=[0,0]/empty only; " +
+		"machine-word boundaries: bounds ±2^k+{-2..2} for k in 7,8,15,16,31,32,62,63,64,65,127,128 (7 range shapes each) against small " +
+		"divisors/factors/shift counts (-1,0,1,..) through all 10 ops, and boundary against boundary; every unexported helper directly " +
+		"(bigIntQuo/Mul/Lsh/Rsh/NewSet/NewNot, bitMask 0..140, biggerIntPair ops, predicates, String, justZero, mulLsh incl. negative counts). " +
 		"non-trivial = both operands non-empty; distinct = distinct op line")
 }
